@@ -15,6 +15,9 @@ class P(vlib.Prop):
             "same members with read_archive. Raw tar.Header lists that no apko filesystem produces (block devices, fifos, negative ids, global headers, refused headers) go through "
             "archive/tar's Writer driven as writeTar drives it; hand-made and damaged streams (V7/STAR/GNU blocks, base-256 numbers, signed checksums, odd PAX records, every kind of truncation, "
             "random cuts and bit flips of real streams) are read by the real Reader and by read_archive (quick 300 cases, thorough 1700). "
+            "layerfile stage, fault class: the real ImageLayoutToLayer emitting to an output that refuses bytes — /dev/full, and a regular file under an RLIMIT_FSIZE of 1 byte to 5 MiB "
+            "(SIGXFSZ ignored, in a child process), filesystems of 0 to 5 MiB of incompressible content, both backends; the call must return an error, or the bytes found in the file must have "
+            "the advertised size, hash to the advertised digest and gunzip to the advertised diff-id (quick 44 cases, thorough 150). "
             "layerfile stage (exploration on real bytes): the real ImageLayoutToLayer emits layers of filesystems of different sizes to the SAME path "
             "(explicit tarball path and temp-dir default, one build context re-used and fresh ones, a path that already holds other bytes, both backends); after each "
             "emission the blob layer.Compressed() hands out must have the advertised size/digest/diff-id and untar to the filesystem's files. "
